@@ -154,6 +154,152 @@ func zzSelfLoopFrame() []uint16 {
 //@   modifies nothing
 //@   loop 0 invariant 0 <= i && i <= 4 && len(s) == 4
 
+func zzSelfAlias(a []uint16, b []uint16) {
+	a[0] = 1
+}
+
+//@ contract zzSelfAlias
+//@   requires len(a) > 0 && len(b) > 0
+//@   ensures b[0] == old(b[0])                     -- false when a and b share their backing array
+//@   modifies elems(a)
+
+func zzSelfAppendAlias(s []uint16) []uint16 {
+	t := append(s[:1], 9)
+	return t
+}
+
+//@ contract zzSelfAppendAlias
+//@   requires len(s) >= 2
+//@   ensures s[1] == old(s[1])                     -- false: append writes s[1] in place (capacity suffices)
+//@   modifies elems(s)
+
+func zzSelfCallee(x []uint16) {
+	if len(x) > 0 {
+		x[0] = 3
+	}
+}
+
+//@ contract zzSelfCallee
+//@   ensures len(x) > 0 ==> x[0] == 3
+//@   modifies elems(x)
+
+func zzSelfCallFrame(x []uint16, y []uint16) uint16 {
+	v := y[0]
+	zzSelfCallee(x)
+	return y[0] - v
+}
+
+//@ contract zzSelfCallFrame
+//@   requires len(x) > 0 && len(y) > 0
+//@   ensures res == 0                              -- false when x and y alias
+//@   modifies elems(x)
+
+func zzSelfNested(n int) []uint16 {
+	s := make([]uint16, 8)
+	for i := 0; i < 2; i++ {
+		for j := 0; j < 4; j++ {
+			s[4*i+j] = 1
+		}
+	}
+	return s
+}
+
+//@ contract zzSelfNested
+//@   ensures len(res) == 8 && res[7] == 0          -- false: res[7] == 1
+//@   modifies nothing
+//@   loop 0 invariant 0 <= i && i <= 2 && len(s) == 8
+//@   loop 1 invariant 0 <= j && j <= 4 && len(s) == 8 && 0 <= i && i < 2
+
+type zzQ struct{ f int }
+
+func zzCopyStruct(a *zzQ) int {
+	b := *a
+	b.f = 1
+	return a.f
+}
+
+//@ contract zzCopyStruct
+//@   requires a != nil
+//@   ensures res == old(a.f) && a.f == old(a.f)
+//@   modifies nothing
+
+func zzSelfSub(a uint16, b uint16) int { return int(a - b) }
+
+//@ contract zzSelfSub
+//@   ensures res == a - b                          -- false: uint16 subtraction wraps
+//@   modifies nothing
+
+func zzSelfBreak(a []uint16) int {
+	n := 0
+	for i := 0; i < len(a); i++ {
+		if a[i] == 5 {
+			break
+		}
+		n++
+	}
+	return n
+}
+
+//@ contract zzSelfBreak
+//@   ensures res == len(a)                         -- false when a contains 5
+//@   modifies nothing
+//@   loop 0 invariant 0 <= i && i <= len(a) && n == i
+
+func zzHelperNoContract(a []uint16) {
+	if len(a) > 0 {
+		a[0] = 1
+	}
+}
+
+func zzSelfInline(a []uint16) { zzHelperNoContract(a) }
+
+//@ contract zzSelfInline
+//@   modifies nothing                              -- false: the inlined helper writes a[0]
+
+func zzSelfShadow(x int) int {
+	y := x
+	if x > 0 {
+		y := 5
+		_ = y
+	}
+	return y
+}
+
+//@ contract zzSelfShadow
+//@   requires x > 0
+//@   ensures res == 5                              -- false: the inner y shadows
+//@   modifies nothing
+
+func zzSelfTypeSwitch(c container) int {
+	switch c.(type) {
+	case *arrayContainer:
+		return 1
+	case *bitmapContainer:
+		return 2
+	}
+	return 3
+}
+
+//@ contract zzSelfTypeSwitch
+//@   ensures res != 3                              -- false: run container or nil
+//@   modifies nothing
+
+func zzSelfDiv(a, b int) int { return a / b }
+
+//@ contract zzSelfDiv
+//@   modifies nothing
+
+func zzSelfIdx(a []uint16, i int) uint16 { return a[i] }
+
+//@ contract zzSelfIdx
+//@   requires i >= 0
+//@   modifies nothing
+
+func zzSelfNil(p *zzQ) int { return p.f }
+
+//@ contract zzSelfNil
+//@   modifies nothing
+
 func zzMask(x uint32) uint32 { return x & 0xffff0000 }
 
 //@ contract zzMask
@@ -166,8 +312,8 @@ func zzSelfWrap(a uint16, b uint16) int { return int(a + b) }
 //@   ensures res == a + b                      -- false: uint16 addition wraps
 //@   modifies nothing
 '''
-ENGINE_KEYS = ['roaring.zzSelfFrame', 'roaring.zzSelfFresh', 'roaring.zzSelfByte', 'roaring.zzSelfWrap', 'roaring.zzSelfMkBad', 'roaring.zzSelfElemFrame', 'roaring.zzSelfIfaceEref', 'roaring.zzSelfLoopFrame']
-ENGINE_OK = ['roaring.zzP.bump', 'roaring.zzB.bumpAll', 'roaring.zzMk', 'roaring.zzMask']
+ENGINE_KEYS = ['roaring.zzSelfFrame', 'roaring.zzSelfFresh', 'roaring.zzSelfByte', 'roaring.zzSelfWrap', 'roaring.zzSelfMkBad', 'roaring.zzSelfElemFrame', 'roaring.zzSelfIfaceEref', 'roaring.zzSelfLoopFrame', 'roaring.zzSelfAlias', 'roaring.zzSelfAppendAlias', 'roaring.zzSelfCallFrame', 'roaring.zzSelfNested', 'roaring.zzSelfSub', 'roaring.zzSelfBreak', 'roaring.zzSelfInline', 'roaring.zzSelfShadow', 'roaring.zzSelfTypeSwitch', 'roaring.zzSelfDiv', 'roaring.zzSelfIdx', 'roaring.zzSelfNil']
+ENGINE_OK = ['roaring.zzCopyStruct', 'roaring.zzSelfCallee', 'roaring.zzP.bump', 'roaring.zzB.bumpAll', 'roaring.zzMk', 'roaring.zzMask']
 
 FIX_COMMITS = [
  ('d2f9f61', 'roaring.runContainer16.not', 'not/'),
